@@ -280,6 +280,13 @@ func (x *session) serveCmds() {
 			x.emit("sclose", "indata", false, "partial", len(line))
 			return
 		}
+		if !x.enc && len(line) > 0 && line[0] == 0x16 {
+			// a TLS handshake record where a command was expected (a client that dials a cleartext
+			// port with implicit TLS): nothing readable was sent
+			x.emit("tlshello")
+			x.emit("sclose", "indata", false, "partial", 0)
+			return
+		}
 		raw := strings.TrimRight(line, "\r\n")
 		if s.cfg.RawLines {
 			x.emit("rawline", "b", lineBytes(line), "crlf", strings.HasSuffix(line, "\r\n"))
@@ -622,12 +629,16 @@ func (x *session) auth(arg string) bool {
 func (s *Server) serve(c net.Conn, id int) {
 	x := &session{s: s, c: c, id: id}
 	if s.cfg.Implicit {
-		tc := tls.Server(c, s.cfg.TLS)
+		tap := &tapConn{Conn: c}
+		tc := tls.Server(tap, s.cfg.TLS)
 		_ = tc.SetDeadline(time.Now().Add(10 * time.Second))
 		err := tc.Handshake()
 		_ = tc.SetDeadline(time.Time{})
 		x.emit("tls", "ok", err == nil)
 		if err != nil {
+			// bytes that were sent instead of a ClientHello are cleartext: record them as commands
+			x.clearLines(tap.seen)
+			x.emit("sclose", "indata", false, "partial", 0)
 			_ = c.Close()
 			return
 		}
@@ -638,9 +649,14 @@ func (s *Server) serve(c net.Conn, id int) {
 
 	// listen for bytes sent before the greeting
 	_ = x.c.SetReadDeadline(time.Now().Add(s.cfg.Greeting))
-	_, perr := x.br.Peek(1)
+	first, perr := x.br.Peek(1)
 	_ = x.c.SetReadDeadline(time.Time{})
 	early := perr == nil
+	if early && !x.enc && first[0] == 0x16 { // a TLS ClientHello on a cleartext port
+		x.emit("tlshello")
+		x.emit("sclose", "indata", false, "partial", 0)
+		return
+	}
 	if perr != nil {
 		if ne, ok := perr.(net.Error); !ok || !ne.Timeout() {
 			x.emit("sclose", "indata", false, "partial", 0)
